@@ -123,6 +123,16 @@ func waitingPullCurrentPolicy(prop string) func(t *testing.T, st *Stats) {
 // 40 s on an empty subscription (TTL 60 s) and comes back empty restarts it when it *ends*: 30 s later
 // the expiry job must leave the subscription alone.
 func waitingEmptyPullRestartsExpiry(t *testing.T, st *Stats) {
+	for _, updated := range []bool{false, true} {
+		if waitingEmptyPullCase(t, st, updated) {
+			return
+		}
+	}
+}
+
+// updated: while the pull waits, UpdateSubscription raises the expiration TTL to 300 s; the clock the pull
+// restarts at its end runs with the TTL the subscription has then (checked 100 s after the pull ended)
+func waitingEmptyPullCase(t *testing.T, st *Stats, updated bool) (violated bool) {
 	what := ""
 	synctest.Test(t, func(t *testing.T) {
 		w := NewWorld(t, Seed())
@@ -138,7 +148,18 @@ func waitingEmptyPullRestartsExpiry(t *testing.T, st *Stats) {
 		start := time.Now()
 		fin := make(chan error, 1)
 		go func() { fin <- a.ExecuteClient(context.Background(), w.Client) }()
-		time.Sleep(41 * time.Second)
+		if updated {
+			time.Sleep(10 * time.Second)
+			synctest.Wait()
+			ttl := int64(300 * Sec)
+			if u := w.Exec(Op{K: "rpc", Rpc: &Rpc{Kind: "updateSub", Has: true, Paths: []string{"expiration_policy"}, Sub: &SubReq{Name: SubName("s"), Topic: TopicName("t"), Expiration: &ttl}}}); len(u.Resp) > 0 && u.Resp[0] == 'E' {
+				what = "setup: UpdateSubscription answered " + u.Resp
+				return
+			}
+			time.Sleep(31 * time.Second)
+		} else {
+			time.Sleep(41 * time.Second)
+		}
 		synctest.Wait()
 		select {
 		case err := <-fin:
@@ -153,21 +174,31 @@ func waitingEmptyPullRestartsExpiry(t *testing.T, st *Stats) {
 			return
 		}
 		ended := time.Since(start)
-		time.Sleep(29 * time.Second)
+		if updated {
+			time.Sleep(100 * time.Second)
+		} else {
+			time.Sleep(29 * time.Second)
+		}
 		r := w.Exec(Op{K: "expire_subs", Max: 5})
 		g := w.Exec(Op{K: "pull", Sub: "s", Max: 1})
 		if r.Resp != "ok:0" || (len(g.Resp) > 0 && g.Resp[0] == 'E') {
 			what = fmt.Sprintf("subscription with an expiration TTL of 60 s; a Pull waited %s on it and came back empty; %s after the pull ended the expiry job answered %s and a Pull is answered %s — the empty pull did not restart the expiry clock when it ended", ended, time.Since(start)-ended, r.Resp, g.Resp)
+			if updated {
+				what = fmt.Sprintf("subscription with an expiration TTL of 60 s; while a Pull was waiting on it UpdateSubscription raised the TTL to 300 s; the Pull came back empty after %s; %s after it ended the expiry job answered %s and a Pull is answered %s — the clock the pull restarted at its end does not run with the TTL the subscription had then", ended, time.Since(start)-ended, r.Resp, g.Resp)
+			}
 		}
 	})
 	st.Count("waiting_empty_pull_cases", 1)
 	if what != "" && (len(what) < 6 || what[:6] != "setup:") {
 		p := ReplayPath(fmt.Sprintf("C14-waiting-empty-pull-%d.json", Seed()))
 		b, _ := json.MarshalIndent(map[string]interface{}{"property": "C14", "sig": "empty-pull-did-not-restart-expiry", "seed": Seed(), "what": what,
-			"history": []string{"subscription s, expiration TTL 60 s, nothing published", "Pull(s) with a 40 s wait: comes back empty after 40 s", "29 s later: expiry job, then Pull(s)"}}, "", " ")
+			"ttl_updated_while_waiting": updated,
+			"history":                   []string{"subscription s, expiration TTL 60 s, nothing published", "Pull(s) with a 40 s wait: comes back empty after 40 s", "(variant: 10 s into the wait UpdateSubscription sets the TTL to 300 s)", "29 s (variant: 100 s) later: expiry job, then Pull(s)"}}, "", " ")
 		os.WriteFile(p, b, 0o644)
 		st.Violate(Violation{What: "[empty-pull-did-not-restart-expiry] " + what, Replay: p, FoundInput: true, Sig: "empty-pull-did-not-restart-expiry"})
+		return true
 	} else if what != "" {
 		st.Count("waiting_empty_pull_setup_failed", 1)
 	}
+	return false
 }
